@@ -217,6 +217,10 @@ def mt2(F, R):
         for fld, acc in (("blocks_per_cluster", "blocks_per_cluster("), ("cluster_count", "total_clusters(")):
             if acc not in tstr(v[fld]):
                 problems.append("%s = %s" % (fld, tstr(v[fld])))
+        # the cluster count is the BPB's, as it is (MT2's formula): not clamped, rounded or corrected here
+        cc_ = strip_refs(v["cluster_count"])
+        if not (cc_[0] == "call" and cc_[1] and cc_[1].endswith("Bpb::total_clusters")):
+            problems.append("cluster_count = %s (must be bpb.total_clusters() itself)" % tstr(cc_)[:120])
         for fld, argn in (("lba_start", 2), ("num_blocks", 3)):
             if strip_refs(v[fld])[:2] != ("arg", argn):
                 problems.append("%s = %s (must be parse_volume's parameter %d)" % (fld, tstr(v[fld]), argn))
